@@ -82,8 +82,8 @@ Proof. destruct a, b; simpl; split; intro H; try reflexivity; try discriminate. 
 
 Lemma kind_eqb_eq a b : kind_eqb a b = true <-> a = b.
 Proof.
-  destruct a as [n d], b as [n' d']. unfold kind_eqb; simpl.
-  rewrite andb_true_iff, optN_eqb_eq, dtype_eqb_eq. split; [intros [? ?]; subst; reflexivity | intro H; inversion H; auto].
+  destruct a as [n k d], b as [n' k' d']. unfold kind_eqb; simpl.
+  rewrite !andb_true_iff, optN_eqb_eq, dtype_eqb_eq, N.eqb_eq. split; [intros [[? ?] ?]; subst; reflexivity | intro H; inversion H; auto].
 Qed.
 
 Lemma tree_ind' (P : tree -> Prop) :
